@@ -50,7 +50,8 @@ int main() {
         while (is >> t) tok.push_back(t);
         if (tok.empty()) continue;
         o.str(""); o.clear();
-        const std::string& v = tok[0];
+        std::string v = tok[0];
+        if (v.size() > 5 && v.compare(v.size() - 5, 5, "@unit") == 0) v.erase(v.size() - 5);   // same call form, operands outside the model's reach
         bool ok = part1(v) || part2(v) || part3(v) || part4(v);
         if (!ok) o << "UNKNOWN-VARIANT";
         std::cout << o.str() << "\n";
